@@ -1,6 +1,23 @@
-// Harness for C16 (ring level): random operation sequences on the REAL gocql `ring`
+// Harness for C16 (ring level): operation sequences on the REAL gocql `ring`
 // (addHostIfMissing / addOrUpdate / removeHost / getHost / getHostByIP / allHosts), a snapshot of its
 // three indexes after every mutating op, for comparison with the Lean model.
+//
+// Scenario kinds: (1) a simulated cluster whose topology changes between refreshes (nodes added, removed,
+// REPLACED by a new host id on the same address, moved to another address, swapping addresses, filtered),
+// every report run through the diff loop of refreshRing; (2) random ring operations over few ids and few
+// addresses (hosts sharing addresses); (3) both interleaved, with arbitrary (also bad) reports.
+//
+// `refresh` is the diff loop of refreshRing (host_source.go) TRANSLITERATED here over the real ring's
+// operations: refreshRing itself needs a control connection (GetHosts) and cannot be called in-process.
+//
+// Spec-backed observations: `consistent` (every host of the ring is found by its id and by its address)
+// is emitted only while the history since `reset` satisfies C16.HGuarded (ring additions on a free address,
+// refreshes with pairwise distinct accepted ids and addresses), `covered` only while it satisfies
+// C16.RemGuarded (ring operations only; every removal harmless); otherwise the same observations are
+// emitted as `chk` / `chkcov` (model vs code only). `nostale <n>` (no by-address entry of the addresses 0..n is
+// stale: getHostByIP never answers "known address" with nil or a host of another address) is spec-backed after
+// EVERY history (C16.C16_stale_nil). The guards are evaluated on a shadow of the INTENDED
+// state kept by the generator, not on the ring under test.
 package main
 
 import (
@@ -15,10 +32,13 @@ import (
 	"verifharness/vh"
 )
 
+type attr struct{ id, addr, caddr int }
+
 type world struct {
 	ring *gocql.VerifRing
 	objs map[int]*gocql.HostInfo
 	num  map[*gocql.HostInfo]int
+	at   map[int]attr // object -> (host id, node address, connectAddress field)
 }
 
 func atoi(s string) int {
@@ -29,11 +49,29 @@ func atoi(s string) int {
 	return n
 }
 
+func natList(s string) []int {
+	if s == "-" {
+		return nil
+	}
+	var l []int
+	for _, x := range strings.Split(s, ",") {
+		l = append(l, atoi(x))
+	}
+	return l
+}
+
 func ip(a int) net.IP {
 	if a == 0 {
 		return nil
 	}
 	return net.IPv4(10, 1, byte(a>>8), byte(a))
+}
+
+func ipStr(a int) string {
+	if a == 0 {
+		return "0.0.0.0"
+	}
+	return ip(a).String()
 }
 
 func ipNum(s string) int {
@@ -66,6 +104,14 @@ func join(l []string) string {
 		return "-"
 	}
 	return strings.Join(l, ",")
+}
+
+func joinInts(l []int) string {
+	var s []string
+	for _, n := range l {
+		s = append(s, strconv.Itoa(n))
+	}
+	return join(s)
 }
 
 func (w *world) obj(h *gocql.HostInfo) string {
@@ -108,6 +154,127 @@ func (w *world) snapshot() string {
 	return "ids=" + join(a) + " ips=" + join(b) + " list=" + join(c)
 }
 
+// refresh: the diff loop of refreshRing (host_source.go:719-765) transliterated over the real ring:
+// r.session.ring.addHostIfMissing / currentHosts as they are, session.removeHost(h) = ring.removeHost(h.HostID())
+// (+ pool and policy, not here), startPoolFill recorded as "filled", host.update(h) is the identity on
+// (id, addresses) for the peer-sourced hosts built here.
+func (w *world) refresh(filtered map[int]bool, rep []int) string {
+	prev := w.ring.CurrentHosts()
+	var filled, removed []int
+	res := "ok"
+	remove := func(h *gocql.HostInfo) {
+		removed = append(removed, w.num[h])
+		w.ring.RemoveHost(h.HostID())
+	}
+	for _, o := range rep {
+		h, ok := w.objs[o]
+		if !ok || filtered[o] {
+			continue
+		}
+		if _, ok := w.ring.AddHostIfMissing(h); !ok {
+			filled = append(filled, o)
+		} else {
+			existing, ok := prev[h.HostID()]
+			if !ok {
+				res = "err:cannot-find-host"
+				break
+			}
+			a, b := w.at[o], w.at[w.num[existing]]
+			if a.caddr == b.caddr && a.addr == b.addr {
+				// no host IP change: host.update(h)
+			} else {
+				remove(existing)
+				if _, alreadyExists := w.ring.AddHostIfMissing(h); alreadyExists {
+					res = "err:host-already-exists"
+					break
+				}
+				filled = append(filled, o)
+			}
+		}
+		delete(prev, h.HostID())
+	}
+	if res == "ok" {
+		var rest []int
+		for _, h := range prev {
+			rest = append(rest, w.num[h])
+		}
+		sort.Ints(rest)
+		for _, o := range rest {
+			remove(w.objs[o])
+		}
+	}
+	sort.Ints(removed)
+	return res + " filled=" + joinInts(filled) + " removed=" + joinInts(removed) + " " + w.snapshot()
+}
+
+// notFound: the hosts of the ring that are not found by their id and by their address
+func (w *world) notFound() []int {
+	var bad []int
+	for _, h := range w.ring.AllHosts() {
+		a := w.at[w.num[h]]
+		g, ok := w.ring.GetHostByIP(ipStr(a.addr))
+		if w.ring.GetHost(hid(a.id)) != h || !ok || g != h {
+			bad = append(bad, w.num[h])
+		}
+	}
+	sort.Ints(bad)
+	return bad
+}
+
+// uncovered: the hosts of the ring that are not found by their id, or whose address does not lead to a host
+// of the ring with that address, or not to the host itself although no other host of the ring has its address
+func (w *world) uncovered() []int {
+	var bad []int
+	all := w.ring.AllHosts()
+	in := map[*gocql.HostInfo]bool{}
+	for _, h := range all {
+		in[h] = true
+	}
+	for _, h := range all {
+		a := w.at[w.num[h]]
+		g, ok := w.ring.GetHostByIP(ipStr(a.addr))
+		good := w.ring.GetHost(hid(a.id)) == h && ok && g != nil && in[g] && w.at[w.num[g]].addr == a.addr
+		if good && g != h {
+			shared := false
+			for _, x := range all {
+				if x != h && w.at[w.num[x]].addr == a.addr {
+					shared = true
+				}
+			}
+			good = shared
+		}
+		if !good {
+			bad = append(bad, w.num[h])
+		}
+	}
+	sort.Ints(bad)
+	return bad
+}
+
+// stale: the addresses 0..n for which getHostByIP answers "known" with something else than a host of the
+// ring with that address
+func (w *world) stale(n int) []int {
+	in := map[*gocql.HostInfo]bool{}
+	for _, h := range w.ring.AllHosts() {
+		in[h] = true
+	}
+	var bad []int
+	for a := 0; a <= n; a++ {
+		h, ok := w.ring.GetHostByIP(ipStr(a))
+		if ok && (h == nil || !in[h] || w.at[w.num[h]].addr != a) {
+			bad = append(bad, a)
+		}
+	}
+	return bad
+}
+
+func objsOr(pfx string, l []int) string {
+	if len(l) == 0 {
+		return "ok"
+	}
+	return pfx + joinInts(l)
+}
+
 func (w *world) exec(op string) (res string) {
 	defer func() {
 		if r := recover(); r != nil {
@@ -129,6 +296,7 @@ func (w *world) exec(op string) (res string) {
 		w.ring = gocql.NewVerifRing()
 		w.objs = map[int]*gocql.HostInfo{}
 		w.num = map[*gocql.HostInfo]int{}
+		w.at = map[int]attr{}
 		return "ok"
 	case "host":
 		o, id, a, c := atoi(f[1]), atoi(f[2]), atoi(f[3]), atoi(f[4])
@@ -138,6 +306,7 @@ func (w *world) exec(op string) (res string) {
 		}
 		w.objs[o] = h
 		w.num[h] = o
+		w.at[o] = attr{id, a, c}
 		return "ok"
 	case "addm":
 		h, ok := w.objs[atoi(f[1])]
@@ -159,12 +328,7 @@ func (w *world) exec(op string) (res string) {
 	case "get":
 		return w.obj(w.ring.GetHost(hid(atoi(f[1]))))
 	case "byip":
-		a := atoi(f[1])
-		s := "0.0.0.0"
-		if a != 0 {
-			s = ip(a).String()
-		}
-		h, ok := w.ring.GetHostByIP(s)
+		h, ok := w.ring.GetHostByIP(ipStr(atoi(f[1])))
 		return fmt.Sprintf("%s %v", w.obj(h), ok)
 	case "all":
 		var l []int
@@ -172,14 +336,125 @@ func (w *world) exec(op string) (res string) {
 			l = append(l, w.num[h])
 		}
 		sort.Ints(l)
-		var s []string
-		for _, n := range l {
-			s = append(s, strconv.Itoa(n))
+		return joinInts(l)
+	case "refresh":
+		fl := map[int]bool{}
+		for _, o := range natList(f[1]) {
+			fl[o] = true
 		}
-		return join(s)
+		return w.refresh(fl, natList(f[2]))
+	case "consistent", "chk":
+		return objsOr("notfound:", w.notFound())
+	case "nostale":
+		return objsOr("stale:", w.stale(atoi(f[1])))
+	case "covered", "chkcov":
+		return objsOr("uncovered:", w.uncovered())
 	}
 	return "bad-op"
 }
+
+// shadow: the INTENDED state of the ring as the generator understands the history (set semantics of
+// add-if-missing / remove-by-id / a good refresh), used only to evaluate the hypotheses of the theorems
+// (C16.HGuarded, C16.RemGuarded) — never the answers.
+type shadow struct {
+	at     map[int]attr
+	live   map[int]int // host id -> object
+	ipx    map[int]int // address -> indexed host id (meaningful while only ring operations happened)
+	hguard bool        // C16.HGuarded holds for the history since reset
+	rguard bool        // C16.RemGuarded holds and the history consists of ring operations only
+}
+
+func newShadow() *shadow {
+	return &shadow{at: map[int]attr{}, live: map[int]int{}, ipx: map[int]int{}, hguard: true, rguard: true}
+}
+
+func (s *shadow) invalid(o int) bool { return s.at[o].addr == 0 && s.at[o].caddr == 0 }
+
+func (s *shadow) sharers(o int) int { // live hosts with another id on the address of o
+	n := 0
+	for id, x := range s.live {
+		if s.at[x].addr == s.at[o].addr && id != s.at[o].id {
+			n++
+		}
+	}
+	return n
+}
+
+func (s *shadow) add(o int) string {
+	if s.invalid(o) {
+		return "invalid"
+	}
+	a := s.at[o]
+	cls := "free-address"
+	if s.sharers(o) > 0 {
+		s.hguard = false
+		cls = "shared-address"
+	}
+	if _, ok := s.live[a.id]; ok {
+		return "existing-id"
+	}
+	s.live[a.id] = o
+	s.ipx[a.addr] = a.id
+	return cls
+}
+
+func (s *shadow) rm(id int) string {
+	o, ok := s.live[id]
+	if !ok {
+		return "unknown"
+	}
+	a := s.at[o]
+	cls := "alone"
+	if s.sharers(o) > 0 {
+		if s.ipx[a.addr] == id {
+			cls = "shared-address-indexed" // the residual case (C16_cex_residual_shared_address): outside RemGuarded
+			s.rguard = false
+		} else {
+			cls = "shared-address-not-indexed" // the case of KF-C16-1
+		}
+	}
+	if x, ok := s.ipx[a.addr]; ok && x == id {
+		delete(s.ipx, a.addr)
+	}
+	delete(s.live, id)
+	return cls
+}
+
+func (s *shadow) refresh(filtered map[int]bool, rep []int) {
+	s.rguard = false
+	ids, addrs := map[int]bool{}, map[int]bool{}
+	good := true
+	var acc []int
+	for _, o := range rep {
+		if filtered[o] {
+			continue
+		}
+		a := s.at[o]
+		if ids[a.id] || addrs[a.addr] {
+			good = false
+		}
+		ids[a.id], addrs[a.addr] = true, true
+		acc = append(acc, o)
+	}
+	if !good {
+		s.hguard = false
+	}
+	if !s.hguard {
+		return
+	}
+	nl := map[int]int{}
+	for _, o := range acc {
+		a := s.at[o]
+		if x, ok := s.live[a.id]; ok && s.at[x].addr == a.addr && s.at[x].caddr == a.caddr {
+			nl[a.id] = x
+		} else {
+			nl[a.id] = o
+		}
+	}
+	s.live = nl
+}
+
+type node struct{ id, addr, caddr int }
 
 func main() {
 	mode, tier, path := vh.Args()
@@ -193,20 +468,218 @@ func main() {
 	}
 	r := vh.NewRng(vh.EnvSeed())
 	out := vh.NewOut(path)
-	scen := 300
+	scen := 1200
 	if tier == "thorough" {
 		scen *= 30
 	}
+	var sh *shadow
 	emit := func(op, class string, nt bool) string {
 		a := w.exec(op)
 		out.Case(op, a, class, nt)
 		return a
 	}
-	for i := 0; i < scen; i++ {
-		emit("reset", "reset", false)
+	host := func(o, id, a, c int) {
+		sh.at[o] = attr{id, a, c}
+		emit(fmt.Sprintf("host %d %d %d %d", o, id, a, c), "host", false)
+	}
+	observe := func() {
+		if sh.hguard {
+			emit("consistent", "consistent/spec-backed(HGuarded)", true)
+		} else {
+			emit("chk", "chk/unguarded-history", true)
+		}
+	}
+	observeCov := func() {
+		if sh.rguard {
+			emit("covered", "covered/spec-backed(RemGuarded)", true)
+		} else {
+			emit("chkcov", "chkcov/unguarded-history", true)
+		}
+	}
+	byip := func(a int) {
+		op := fmt.Sprintf("byip %d", a)
+		ans := w.exec(op)
+		cls := "getHostByIP/hit"
+		if strings.HasPrefix(ans, "nil true") {
+			cls = "getHostByIP/stale-entry"
+		} else if strings.HasSuffix(ans, "false") {
+			cls = "getHostByIP/miss"
+		}
+		out.Case(op, ans, cls, true)
+	}
+	refresh := func(filtered map[int]bool, rep []int, class string) {
+		var fl []int
+		for o := range filtered {
+			fl = append(fl, o)
+		}
+		sort.Ints(fl)
+		sh.refresh(filtered, rep)
+		emit("refresh "+joinInts(fl)+" "+joinInts(rep), class, true)
+	}
+
+	// (1) a cluster whose topology changes between refreshes
+	cluster := func() {
+		nAddr := 3 + r.Intn(8)
+		var nodes []node
+		nextID, nextObj := 1, 1
+		free := func() int { // an address no node has (possibly one just vacated); 0 if none
+			used := map[int]bool{}
+			for _, n := range nodes {
+				used[n.addr] = true
+			}
+			var f []int
+			for a := 1; a <= nAddr; a++ {
+				if !used[a] {
+					f = append(f, a)
+				}
+			}
+			if len(f) == 0 {
+				return 0
+			}
+			return f[r.Intn(len(f))]
+		}
+		addNode := func() bool {
+			a := free()
+			if a == 0 {
+				return false
+			}
+			c := a
+			if r.Intn(8) == 0 {
+				c = 0
+			}
+			nodes = append(nodes, node{nextID, a, c})
+			nextID++
+			return true
+		}
+		for k := 1 + r.Intn(4); k > 0; k-- {
+			addNode()
+		}
+		for round := 3 + r.Intn(8); round > 0; round-- {
+			var evs []string
+			bad := false
+			for k := r.Intn(4); k > 0; k-- {
+				n := len(nodes)
+				switch x := r.Intn(100); {
+				case x < 15:
+					if addNode() {
+						evs = append(evs, "new-node")
+					}
+				case x < 27 && n > 0:
+					i := r.Intn(n)
+					nodes = append(nodes[:i], nodes[i+1:]...)
+					evs = append(evs, "removed-node")
+				case x < 55 && n > 0: // a dead node replaced by a new host id on the same address (KF-C16-1)
+					i := r.Intn(n)
+					nodes[i] = node{nextID, nodes[i].addr, nodes[i].caddr}
+					nextID++
+					evs = append(evs, "replaced-node-same-address")
+				case x < 67 && n > 0:
+					if a := free(); a != 0 {
+						i := r.Intn(n)
+						nodes[i].addr, nodes[i].caddr = a, a
+						evs = append(evs, "moved-node")
+					}
+				case x < 80 && n > 1: // two nodes exchange their addresses
+					i, j := r.Intn(n), r.Intn(n)
+					if i != j {
+						nodes[i].addr, nodes[j].addr = nodes[j].addr, nodes[i].addr
+						nodes[i].caddr, nodes[j].caddr = nodes[i].addr, nodes[j].addr
+						evs = append(evs, "swapped-addresses")
+					}
+				case x < 88 && n > 2: // three nodes rotate their addresses
+					p := []int{r.Intn(n), r.Intn(n), r.Intn(n)}
+					if p[0] != p[1] && p[1] != p[2] && p[0] != p[2] {
+						a0 := nodes[p[0]].addr
+						nodes[p[0]].addr = nodes[p[1]].addr
+						nodes[p[1]].addr = nodes[p[2]].addr
+						nodes[p[2]].addr = a0
+						for _, i := range p {
+							nodes[i].caddr = nodes[i].addr
+						}
+						evs = append(evs, "rotated-addresses")
+					}
+				case x < 94 && n > 0: // a node takes the address of a node that vanishes in the same report
+					i, j := r.Intn(n), r.Intn(n)
+					if i != j {
+						nodes[i].addr, nodes[i].caddr = nodes[j].addr, nodes[j].addr
+						nodes = append(nodes[:j], nodes[j+1:]...)
+						evs = append(evs, "moved-onto-vacated-address")
+					}
+				case x < 97 && n > 0:
+					i := r.Intn(n)
+					nodes[i].caddr = 1 + r.Intn(nAddr)
+					evs = append(evs, "connect-address-changed")
+				default:
+					bad = true
+				}
+			}
+			// the report: fresh HostInfo objects, in any order
+			perm := make([]int, len(nodes))
+			for i := range perm {
+				perm[i] = i
+			}
+			for i := len(perm) - 1; i > 0; i-- {
+				j := r.Intn(i + 1)
+				perm[i], perm[j] = perm[j], perm[i]
+			}
+			var rep []int
+			filtered := map[int]bool{}
+			for _, i := range perm {
+				n := nodes[i]
+				host(nextObj, n.id, n.addr, n.caddr)
+				rep = append(rep, nextObj)
+				if r.Intn(12) == 0 {
+					filtered[nextObj] = true
+					evs = append(evs, "filtered")
+				}
+				nextObj++
+			}
+			if bad && len(nodes) > 0 { // a report no cluster sends: the same id twice, or two ids on one address
+				n := nodes[r.Intn(len(nodes))]
+				if r.Bool() {
+					host(nextObj, n.id, 1+r.Intn(nAddr), n.caddr)
+					evs = append(evs, "BAD-duplicate-id")
+				} else {
+					host(nextObj, nextID, n.addr, n.caddr)
+					nextID++
+					evs = append(evs, "BAD-duplicate-address")
+				}
+				rep = append(rep, nextObj)
+				nextObj++
+			}
+			cls := "unchanged"
+			if len(evs) > 0 {
+				sort.Strings(evs)
+				cls = evs[0]
+				for i := 1; i < len(evs); i++ {
+					if evs[i] != evs[i-1] {
+						cls += "+" + evs[i]
+					}
+				}
+			}
+			refresh(filtered, rep, "refresh/"+cls)
+			observe()
+			if r.Intn(2) == 0 {
+				emit(fmt.Sprintf("nostale %d", nAddr+1), "nostale/spec-backed(all histories)", true)
+			}
+			for k := r.Intn(4); k > 0; k-- {
+				byip(r.Intn(nAddr + 2))
+			}
+			if r.Intn(3) == 0 {
+				emit(fmt.Sprintf("get %d", r.Intn(nextID+1)), "getHost", true)
+			}
+			if r.Intn(4) == 0 {
+				emit("all", "allHosts", true)
+			}
+		}
+	}
+
+	// (2) / (3) random ring operations over few ids and few addresses, optionally interleaved with refreshes
+	randomOps := func(withRefresh bool) {
 		nIDs := 1 + r.Intn(6)
 		nAddr := 1 + r.Intn(6)
 		nObj := 2 + r.Intn(10)
+		var valid []int
 		for o := 1; o <= nObj; o++ {
 			id := 1 + r.Intn(nIDs)
 			if r.Intn(40) == 0 {
@@ -223,32 +696,69 @@ func main() {
 			if r.Intn(30) == 0 {
 				a, c = 0, 0 // no usable address at all: addHostIfMissing panics ("invalid host")
 			}
-			emit(fmt.Sprintf("host %d %d %d %d", o, id, a, c), "host", false)
+			host(o, id, a, c)
+			if a != 0 || c != 0 {
+				valid = append(valid, o)
+			}
 		}
 		for k := 10 + r.Intn(40); k > 0; k-- {
 			o := 1 + r.Intn(nObj)
 			switch x := r.Intn(100); {
-			case x < 25:
-				emit(fmt.Sprintf("addm %d", o), "addHostIfMissing", true)
-			case x < 40:
-				emit(fmt.Sprintf("addu %d", o), "addOrUpdate", true)
+			case x < 22:
+				emit(fmt.Sprintf("addm %d", o), "addHostIfMissing/"+sh.add(o), true)
+			case x < 34:
+				emit(fmt.Sprintf("addu %d", o), "addOrUpdate/"+sh.add(o), true)
+			case x < 52:
+				id := r.Intn(nIDs + 1)
+				emit(fmt.Sprintf("rm %d", id), "removeHost/"+sh.rm(id), true)
 			case x < 60:
-				emit(fmt.Sprintf("rm %d", r.Intn(nIDs+1)), "removeHost", true)
-			case x < 72:
 				emit(fmt.Sprintf("get %d", r.Intn(nIDs+2)), "getHost", true)
-			case x < 92:
-				op := fmt.Sprintf("byip %d", r.Intn(nAddr+2))
-				a := w.exec(op)
-				cls := "getHostByIP/hit"
-				if strings.HasPrefix(a, "nil true") {
-					cls = "getHostByIP/stale-entry"
-				} else if strings.HasSuffix(a, "false") {
-					cls = "getHostByIP/miss"
-				}
-				out.Case(op, a, cls, true)
-			default:
+			case x < 72:
+				byip(r.Intn(nAddr + 2))
+			case x < 75:
 				emit("all", "allHosts", true)
+			case x < 83:
+				observe()
+			case x < 90:
+				observeCov()
+			case x < 96:
+				emit(fmt.Sprintf("nostale %d", nAddr+1), "nostale/spec-backed(all histories)", true)
+			default:
+				if withRefresh && len(valid) > 0 { // an arbitrary report over the existing objects (often not a good one)
+					var rep []int
+					filtered := map[int]bool{}
+					for _, v := range valid {
+						if r.Intn(3) == 0 {
+							rep = append(rep, v)
+							if r.Intn(6) == 0 {
+								filtered[v] = true
+							}
+						}
+					}
+					for i := len(rep) - 1; i > 0; i-- {
+						j := r.Intn(i + 1)
+						rep[i], rep[j] = rep[j], rep[i]
+					}
+					refresh(filtered, rep, "refresh/arbitrary-report")
+					observe()
+				}
 			}
+		}
+		observe()
+		observeCov()
+		emit(fmt.Sprintf("nostale %d", nAddr+1), "nostale/spec-backed(all histories)", true)
+	}
+
+	for i := 0; i < scen; i++ {
+		emit("reset", "reset", false)
+		sh = newShadow()
+		switch x := r.Intn(10); {
+		case x < 4:
+			cluster()
+		case x < 8:
+			randomOps(false)
+		default:
+			randomOps(true)
 		}
 	}
 	out.Close(nil)
